@@ -163,11 +163,30 @@ def tl_bytes(ctx, tpl):
             focus.append(sch.id)
         elif seg[0] == 'c':
             data = data + bytes.fromhex(seg[1])
+        elif seg[0] == 'nest':
+            data = data + nested_objects(tl, seg[1], seg[2] if len(seg) > 2 else 2)
         else:
             k += 1
             if seg[1]:
                 data = data + ctx.bytes_(f's{k}', seg[1])
     return data, focus
+
+
+def nested_objects(tl, depth, width=2):
+    """a byte-string field that holds `width` encoded objects back to back, the first of which carries such a field
+    again, `depth` levels deep (the parser re-parses byte strings that start with a known constructor id): the work must
+    stay proportional to the length, not double with every level"""
+    q = tl.get_by_name('liteServer.query').little_id()
+    leaf = tl.get_by_name('liteServer.getTime').little_id()
+
+    def tl_bytes_field(b):
+        head = bytes([len(b)]) if len(b) <= 253 else b'\xfe' + len(b).to_bytes(3, 'little')
+        out = head + b
+        return out + bytes((-len(out)) % 4)
+    inner = leaf
+    for _ in range(depth):
+        inner = q + tl_bytes_field(inner + leaf * (width - 1))
+    return inner
 
 
 def auto_tpl(name, flagval, k):
@@ -398,6 +417,10 @@ def instances(tier, seed):
             if i % 5 == seed % 5:
                 yield 'h_tl', dict(tpl=auto_tpl(name, 0x7fffffff, 8))
     yield 'h_tl', dict(tpl=[['s', 8]])
+    # byte strings holding several objects, nested (structure concrete, a symbolic tail behind the outermost object)
+    for depth in ((3, 10, 18) if q else (1, 2, 3, 6, 10, 14, 18, 24)):
+        for width in (2, 3):
+            yield 'h_tl', dict(tpl=[['nest', depth, width], ['s', 4]])
     # --- BoC: header and cell descriptors symbolic
     for magic in MAGICS.values():
         for k in ((2, 6, 9) if q else range(0, 11)):
